@@ -200,7 +200,7 @@ def _ref_lookup(lines, host, addr, port):
     return set(hk), set(ca), set(rv)
 
 
-def known_hosts(m0: int, f0: int, k0: int, m1: int, f1: int, k1: int, hi: int, ai: int, port: bool) -> bool:
+def known_hosts(m0: int, f0: int, k0: int, m1: int, f1: int, k1: int, hi: int, ai: int, port: bool, prior: int = 0) -> bool:
     """SSHKnownHosts.load + match for two lines (marker x host field x key,
     possibly unparsable) against (host, address, port): exactly the entries the
     file-format rules select - exact, wildcard, negated, CIDR, hashed and
@@ -218,6 +218,12 @@ def known_hosts(m0: int, f0: int, k0: int, m1: int, f1: int, k1: int, hi: int, a
     try:
         with notrace():
             kh = KH.SSHKnownHosts(text)
+            # a parsed known_hosts object is reused for many connections: earlier lookups must not change later ones
+            if prior == 1:
+                kh.match('h', '10.0.0.1', p)
+            elif prior == 2:
+                kh.match('g', '192.168.1.1', None)
+                kh.match(host, '10.0.0.1', p)
             res = kh.match(host, addr, p)
     finally:
         KH.import_public_key, KH.import_certificate, KH.import_certificate_subject = saved
@@ -365,14 +371,14 @@ OBLIGATIONS = [
        functions=[P._PatternList.__init__, P._PatternList.matches],
        bounds='1..3 sub-patterns, each negated or not, each leaf verdict symbolic'),
     Ob('known_hosts', known_hosts,
-       sym=dict(m0=R(0, 2), f0=R(0, 15), k0=R(0, 2), m1=R(0, 2), f1=R(0, 15), k1=R(0, 2), hi=R(0, 3), ai=R(0, 2), port=B),
+       sym=dict(m0=R(0, 2), f0=R(0, 15), k0=R(0, 2), m1=R(0, 2), f1=R(0, 15), k1=R(0, 2), hi=R(0, 3), ai=R(0, 2), port=B, prior=R(0, 2)),
        shards=dict(f0=list(range(16)), k0=[0], k1=[1], m1=[0], m0=[0, 2], ai=[0, 1]),
        thorough_shards=dict(f0=list(range(16)), k0=[0, 2], m0=[0, 1, 2], m1=[0, 1, 2]),
        timeout=200, thorough_timeout=600,
        functions=[KH.SSHKnownHosts.load, KH.SSHKnownHosts._match, KH.SSHKnownHosts.match, KH._PlainHost.matches,
                   KH._HashedHost.matches, P.HostPatternList.build_pattern, P.WildcardHostPattern.matches, P.CIDRHostPattern.matches],
        bounds='2 lines: marker x 16 host-field forms (exact, list, wildcard, negated first / negated later element without wildcard characters, [host]:port, CIDR, negated CIDR, hashed, hashed with port, IP literal) x key (2 good + broken); '
-              'query host in {h, g, IP literal, none} x address {none, 2 IPs} x port {default, 2222}'),
+              'query host in {h, g, IP literal, none} x address {none, 2 IPs} x port {default, 2222}, asked on a fresh object or after 1-2 other lookups on the same object'),
     Ob('options_tokenizer', options_tokenizer,
        sym=dict(n=R(0, 6), i0=R(0, 6), i1=R(0, 6), i2=R(0, 6), i3=R(0, 6), i4=R(0, 6), i5=R(0, 6)),
        shards=dict(n=[0, 1, 2, 3, 4], i5=[0]), thorough_shards=dict(n=[0, 1, 2, 3, 4, 5, 6], i0=list(range(7))),
